@@ -54,6 +54,13 @@ char *strcat(char *d, const char *s){
   d[dl + sl] = 0;
   return d;
 }
+char *strncat(char *d, const char *s, size_t n){
+  size_t dl = strlen(d), sl = strnlen(s, n);
+  __CPROVER_assert(__CPROVER_w_ok(d + dl, sl + 1), "strncat: destination has room for min(strlen(source), n) bytes and NUL");
+  __CPROVER_havoc_slice(d + dl, sl + 1);
+  d[dl + sl] = 0;
+  return d;
+}
 char *strcpy(char *d, const char *s){
   size_t sl = strlen(s);
   __CPROVER_assert(__CPROVER_w_ok(d, sl + 1), "strcpy: destination has room for source and NUL");
